@@ -332,6 +332,51 @@ def rule_precision_pattern(ctx):
     ctx.floor("precision/scale patterns", n, 1)
 
 
+def rule_describe_dict_cursor(ctx):
+    """C06.h: describe(q) hands positional rows to the metadata conversion whatever the cursor's row format."""
+    from ..execmodel import FullHooks
+
+    prog = ctx.prog
+    fn = prog.fn("cursor", "FakeSnowflakeCursor.describe")
+    loc = prog.mod("cursor").loc(fn)
+
+    class H(FullHooks):
+        def __init__(self):
+            super().__init__(None, "DESCRIBE query", False)
+            self.meta_arg = None
+
+        def intercept(self, I, key, args, kwargs, site, f=None):
+            if key.startswith("types.describe_as_"):
+                self.meta_arg = args[0] if args else None
+                return Sym("METADATA")
+            return NotImplemented
+
+    for dict_flag in (False, True):
+        hooks = []
+
+        def fac():
+            h = H()
+            hooks.append(h)
+            return h
+
+        def run(I, dict_flag=dict_flag):
+            duck, conn, cur = make_session()
+            cur.attrs[R().dict_flag] = Const(dict_flag)
+            return I.call(I.getattr(cur, "describe"), [Sym("QUERY", typ="str", truthy=True)], {}, None)
+
+        for p, h in zip(explore(prog, fac, run, max_paths=32), hooks):
+            if p.outcome != "return" or h.meta_arg is None:
+                continue
+            v = h.meta_arg
+            raw_dicts = isinstance(v, Sym) and v.origin and v.origin[0] == "method" and v.origin[2] == "to_pylist" and "column" not in tagof(v.origin[1])
+            ctx.ob("C06.h", f"describe() on a {'dict' if dict_flag else 'tuple'} cursor passes positional rows to the metadata conversion", not raw_dicts, loc, tagof(v)[:70])
+            if raw_dicts:
+                ctx.violation("C06.h", "cursor", "FakeSnowflakeCursor.describe", "dict rows passed to the metadata conversion", loc,
+                              "with a DictCursor describe() passes name-keyed dict rows to the conversion that unpacks positional DESCRIBE rows: "
+                              "describe() raises NotImplementedError instead of returning what description returns")
+            break
+
+
 TYPE_ORACLE = {
     # DuckDB type reported by DESCRIBE -> (snowflake type, precision, scale, length) the connector documents for it
     "BIGINT": ("fixed", 38, 0, None), "INTEGER": ("fixed", 38, 0, None), "DOUBLE": ("real", None, None, None),
@@ -393,6 +438,7 @@ def rule_type_table(ctx):
 
 RULES = [
     ("C06.f", rule_type_table, ("quick", "thorough")),
+    ("C06.h", rule_describe_dict_cursor, ("quick", "thorough")),
     ("C06.e", rule_precision_pattern, ("quick", "thorough")),
     ("C06.a", rule_last_statement, ("quick", "thorough")),
     ("C06.b", rule_describable, ("quick", "thorough")),
